@@ -7,6 +7,7 @@ package main
 import (
 	"fmt"
 	"math/rand"
+	"strings"
 	"time"
 
 	"github.com/paulmach/osm"
@@ -18,6 +19,9 @@ type docGen struct {
 	p           float64
 	minElems    int
 	versionForm string
+	recased     int
+	plain       bool // exact-case keys only (the fault injector addresses keys by name)
+	overpass    int
 }
 
 var unknownKeys = []string{"center", "geometry", "remark", "osm3s", "nd_refs", "x-extra", "_id", "zzz"}
@@ -49,7 +53,44 @@ func (d *docGen) finish(o *jnode) *jnode {
 		o.keys[i], o.keys[j] = o.keys[j], o.keys[i]
 		o.vals[i], o.vals[j] = o.vals[j], o.vals[i]
 	})
+	// encoding/json matches keys case-insensitively: spell a key in another case
+	if !d.plain && len(o.keys) > 0 && d.rng.Intn(6) == 0 {
+		i := d.rng.Intn(len(o.keys))
+		switch d.rng.Intn(3) {
+		case 0:
+			o.keys[i] = strings.ToUpper(o.keys[i])
+		case 1:
+			o.keys[i] = strings.Title(o.keys[i])
+		default:
+			b := []byte(o.keys[i])
+			for k := range b {
+				if k%2 == 1 && b[k] >= 'a' && b[k] <= 'z' {
+					b[k] -= 32
+				}
+			}
+			o.keys[i] = string(b)
+		}
+		d.recased++
+	}
+	// a decoy spelled in another case BEFORE the real id: the last entry wins
+	if !d.plain && o.get("id") != nil && d.rng.Intn(10) == 0 {
+		o.keys = append([]string{"Id"}, o.keys...)
+		o.vals = append([]*jnode{jint(987654321)}, o.vals...)
+	}
 	return o
+}
+
+// overpassBounds writes the per-element bounds the way Overpass does (lowercase keys); the
+// library's Bounds has no json tags and is reached through case-insensitive matching.
+func (d *docGen) overpassBounds(o *jnode) *osm.Bounds {
+	if d.rng.Intn(4) != 0 {
+		return nil
+	}
+	g := d.g()
+	b := &osm.Bounds{MinLat: g.float(), MinLon: g.float(), MaxLat: g.float(), MaxLon: g.float()}
+	o.set("bounds", jobj().set("minlat", jfloat(b.MinLat)).set("minlon", jfloat(b.MinLon)).set("maxlat", jfloat(b.MaxLat)).set("maxlon", jfloat(b.MaxLon)))
+	d.overpass++
+	return b
 }
 
 func (d *docGen) g() *gen { return &gen{rng: d.rng, p: d.p} }
@@ -155,6 +196,7 @@ func (d *docGen) element(o *osm.OSM) *jnode {
 			w.Nodes = wayNodesOf(ids)
 		}
 		w.Tags = d.tags(e)
+		w.Bounds = d.overpassBounds(e)
 		o.Ways = append(o.Ways, w)
 	case k < 7:
 		r := &osm.Relation{ID: osm.RelationID(g.i64())}
@@ -181,6 +223,7 @@ func (d *docGen) element(o *osm.OSM) *jnode {
 			e.set("members", jn())
 		}
 		r.Tags = d.tags(e)
+		r.Bounds = d.overpassBounds(e)
 		o.Relations = append(o.Relations, r)
 	default:
 		switch d.rng.Intn(3) {
